@@ -20,7 +20,7 @@ LEVEL = "model_checking"
 
 STEPS = ["prox", "inexact_abs", "inexact_rel", "els0", "els1", "els2", "lmo", "eps_sub", "iprox1", "iprox2", "iprox3", "breg_grad", "breg_prox", "breg_grad_n", "breg_prox_n"]
 SIZES = [0, 0.5, 1, 2, 1e-9]
-FUNCS = ["fd", "fn", "sum", "sum_eval"]
+FUNCS = ["fd", "fn", "sum", "sum_eval", "scaled", "weighted_eval"]
 FUNCS_THOROUGH = FUNCS + ["weighted", "nested", "zero"]
 SIZES_THOROUGH = [0, 0.5, 1, 2, 3.5, 0.1, 1e-9, 1e6]
 STARTS = ["leaf", "combo", "returned", "same"]
@@ -47,7 +47,11 @@ class World(object):
             self.f = self.fd; self.terms = []
         elif func == "fn":
             self.f = self.fn
-        elif func == "weighted":
+        elif func == "scaled":
+            self.f = 2 * self.fd                  # a multiple of a single function
+            self.f.set_name("F")
+            self.terms = [(self.fd, 2)]
+        elif func in ("weighted", "weighted_eval"):
             self.f = 2 * self.fd + 0.5 * self.fn
             self.f.set_name("F")
             self.terms = [(self.fd, 2), (self.fn, 0.5)]
@@ -89,7 +93,7 @@ class World(object):
             if pre == "none":
                 self.ok = False
             self.x0 = x0
-        if func == "sum_eval" and self.ok:
+        if func in ("sum_eval", "weighted_eval") and self.ok:
             self.fd.oracle(self.x0)
         self.all_functions = [self.fd, self.fn, self.ind, self.h, self.hn] + ([self.f] if self.terms else [])
 
